@@ -146,4 +146,18 @@ def monDepositD (amp : Nat) (xs : List Nat) (d : Nat) : Verdict :=
   else if conv then none
   else some "C19-nonconverged-accepted"
 
+/-- C03 for a stableswap pool touched by a route (no per-hop amounts are observable): the exact invariant of the
+    reported reserves did not decrease; a relative decrease below 10^-9 is the recorded rounding class of F-03
+    (every hop rounds its output up by one unit / the D solver's resolution) -/
+def monSsPoolD (amp : Nat) (decimals before after : List Nat) : Verdict :=
+  let ann := amp * before.length
+  let nb := normBalances decimals before
+  let na := normBalances decimals after
+  if nb.any (· == 0) || na.any (· == 0) then none else
+  let db := Spec.dFloorScaled ann nb SS_K
+  let da := Spec.dFloorScaled ann na SS_K
+  if db ≤ da then none
+  else if (db - da) * 1000000000 ≤ db then some "C03-ss-rounding"
+  else some "C03-ss-invariant"
+
 end MantraDex
